@@ -1215,6 +1215,12 @@ impl<const STREAMING: bool> GroupValues for GroupValuesColumn<STREAMING> {
                 // a real Result rather than panicking.
                 let fresh = Self::build_group_columns(&self.schema)?;
                 let group_values = mem::replace(&mut self.group_values, fresh);
+                // All groups are gone: the index must not keep pointing at
+                // rows of the drained builders.
+                self.map.clear();
+                if !STREAMING {
+                    self.group_index_lists.clear();
+                }
 
                 group_values
                     .into_iter()
